@@ -1037,7 +1037,12 @@ func (w *World) answer(bc *BConn, args [][]byte) ([]byte, int) {
 			if m == nil {
 				return []byte("-CLUSTERDOWN Hash slot not served\r\n"), 0
 			}
-			owner := m.Addr == bc.Addr || (bc.Node.Master == m.Name && bc.ReadOnly)
+			// a replica serves READS of its master's slots on a READONLY connection; writes are redirected to the master
+			isWrite := false
+			if sp, ok := SpecTable[name]; ok {
+				isWrite = sp.Write
+			}
+			owner := m.Addr == bc.Addr || (bc.Node.Master == m.Name && bc.ReadOnly && !isWrite)
 			if !owner {
 				return []byte(fmt.Sprintf("-MOVED %d %s\r\n", slot, m.Addr)), 0
 			}
